@@ -69,6 +69,19 @@ func (h *hist) stepPoison() bool {
 		if h.r.Intn(3) == 0 && len(fc) > 0 {
 			ins = append(h.take(&fc, 1), ins...)
 		}
+		// sometimes an output of an unrelated pooled tx goes in front of the output of the replaced tx
+		if h.r.Intn(2) == 0 {
+			desc := map[*pent]bool{a: true}
+			for _, d := range h.v.descendants(a) {
+				desc[d] = true
+			}
+			for _, op := range h.freePooled() {
+				if e := h.v.byID[op.Hash]; e != nil && !desc[e] && e != a {
+					ins = append([]OP{op}, ins...)
+					break
+				}
+			}
+		}
 		x := h.build(ins, bopt{family: "rbf-spends-replaced", fee: a.fee*3 + 5000 + h.randFee(), bad: -1, nout: 1})
 		x.poison = k
 		h.sub(x, "net")
